@@ -31,13 +31,17 @@ def main():
         chk.add_tlc(r)
         if r.error:
             chk.machinery_failure("Builder run failed: %s\n%s" % (r.error, r.out[-1500:]))
+    import opsweep
+    sweep = opsweep.programs()
+    progs += [p for _, p in sweep]
+    chk.notes["operator_sweep_programs"] = len(sweep)
     jobs = [(p, streams.all_settings(p)) for p in progs]
     results = pipeline.compile_all(jobs)
     entries, metas, owners = [], [], []
     ncompiled = 0
     for p, rs in zip(progs, results):
         ncompiled += sum(1 for r in rs if "teal" in r)
-        e, meta = pipeline.make_entry(len(entries) + 1, p, rs, pipeline.make_cx(p))
+        e, meta = pipeline.make_entry(len(entries) + 1, p, rs, pipeline.make_cx(p, gsizes=(3,) if p.get("argdoms") is not None else (1,)))
         if e["texts"]:
             entries.append(e)
             metas.append(meta)
